@@ -569,6 +569,24 @@ def install_world(schd, world, scn, rng):
     schd.proc_pool.process = process
 
 
+def _bcast_table(schd):
+    """the broadcasts in force as sorted rows [point, namespace, "[section]key", value] (the database's form)"""
+    bm = schd.task_events_mgr.broadcast_mgr
+    rows = []
+
+    def walk(point, ns, d, prefix):
+        for k, v in d.items():
+            if isinstance(v, dict):
+                walk(point, ns, v, prefix + f"[{k}]")
+            else:
+                rows.append([point, ns, prefix + k, str(v)])
+    with bm.lock:
+        for point, nsd in bm.broadcasts.items():
+            for ns, st in nsd.items():
+                walk(point, ns, st, "")
+    return sorted(rows)
+
+
 def snapshot(schd):
     pool = schd.pool
     real = [t for m in pool.active_tasks.values() for t in m.values()]
@@ -586,12 +604,15 @@ def snapshot(schd):
         "stop_task": pool.stop_task_id,
         "abs_done": sorted([int(c), t, o] for c, t, o in pool.abs_outputs_done),
         "flow_counter": schd.flow_mgr.counter,
+        "bcast": _bcast_table(schd),
     }
     try:
         con = sqlite3.connect(f"file:{schd.workflow_db_mgr.pri_path}?mode=ro", uri=True, timeout=1)
         snap["db_pool"] = sorted(
             [int(c), n, json.loads(f), s, bool(h)] for c, n, f, s, h in
             con.execute("SELECT cycle, name, flow_nums, status, is_held FROM task_pool"))
+        snap["bcast_db"] = sorted([p_, n_, k_, v_] for p_, n_, k_, v_ in
+                                  con.execute("SELECT point, namespace, key, value FROM broadcast_states"))
         con.close()
     except Exception as exc:
         snap["db_pool"] = f"ERR {type(exc).__name__}: {exc}"
@@ -785,6 +806,16 @@ async def run_scenario(scn: dict, home: Path) -> dict:
                     # if the iteration issues fewer, die at its end
                     CRASH["left"] = int(o.get("stmts", 0))
                     pending_crash = o
+                elif o["cmd"] == "broadcast" and (pending_restart is not None or pending_crash is not None):
+                    ev("op_skipped", op=o)       # the scheduler is on its way down: no client is served
+                elif o["cmd"] == "broadcast":
+                    # as the network layer does: straight to the broadcast manager, between main-loop iterations
+                    bm = schd.task_events_mgr.broadcast_mgr
+                    if o["mode"] == "put":
+                        bm.put_broadcast(list(o["points"]), list(o["namespaces"]), json.loads(json.dumps(o["settings"])))
+                    else:
+                        bm.clear_broadcast(point_strings=list(o["points"]), namespaces=list(o["namespaces"]),
+                                           cancel_settings=json.loads(json.dumps(o["settings"])))
                 elif o["cmd"] == "restart":
                     # stop (clean / now), keep ticking until the scheduler exits, then boot again
                     from cylc.flow.workflow_status import StopMode
